@@ -411,6 +411,42 @@ func work(ctx *runner.Ctx) {
 		}
 		_ = fi
 	}
+	// wire ids crossing the 64 Ki pages of the streaming wire tables: one program, garbler inputs of every size
+	// around 8 KiB (65536 bits) - which value's last wire lands exactly on the boundary depends on the size
+	pageProg := "package main\n\nfunc main(a, b []byte) (uint8, bool, uint8) {\n\tc0 := a[0] > b[0]\n\tc1 := a[1] > b[1]\n\tc2 := a[2] > b[2]\n\tc3 := a[3] > b[3]\n\tc4 := a[4] > b[0]\n\tx := a[7] + b[3]\n\ty := a[len(a)-1] ^ b[1]\n\treturn x, c0 && c1 && c2 && c3 && c4, y\n}\n"
+	sizes := []int{}
+	for n := 8160; n <= 8196; n++ {
+		sizes = append(sizes, n)
+	}
+	if !quick {
+		for n := 16370; n <= 16390; n++ {
+			sizes = append(sizes, n)
+		}
+	}
+	for _, n := range sizes {
+		idx++
+		if !ctx.Mine(idx) || ctx.Expired() {
+			continue
+		}
+		buf := make([]byte, n)
+		for i := range buf {
+			buf[i] = byte(37*i + n)
+		}
+		runCase(ctx, cs{Src: pageProg, G: fmt.Sprintf("0x%x", buf), E: "0x05810a7f", OT: "ideal", Sizes: [][]int{{8 * n}, {32}}, Fam: "page-boundary"})
+	}
+	for _, pp := range []string{
+		"package main\n\nfunc main(a, b [4096]byte) (uint8, uint8) {\n\tvar x, y uint8\n\tfor i := 0; i < 4; i++ {\n\t\tx = x + a[i] ^ b[i]\n\t\ty = y ^ a[4095-i] + b[4095-i]\n\t}\n\treturn x, y\n}\n",
+	} {
+		idx++
+		if !ctx.Mine(idx) || ctx.Expired() {
+			continue
+		}
+		buf := make([]byte, 4096)
+		for i := range buf {
+			buf[i] = byte(91*i + 3)
+		}
+		runCase(ctx, cs{Src: pp, G: fmt.Sprintf("0x%x", buf), E: fmt.Sprintf("0x%x", buf[1:]) + "07", OT: "ideal", Fam: "page-boundary-4k"})
+	}
 	if !quick && ctx.Shard == 0 {
 		// live wire ids beyond 65535: both wire-id encodings of the streaming format
 		big := "package main\n\nfunc main(a, b uint8) uint8 {\n\tvar arr [9000]uint8\n\tfor i := 0; i < 9000; i++ {\n\t\tarr[i] = a + uint8(i)\n\t}\n\tx := a & b\n\ty := x << 1\n\tz := a - b\n\treturn arr[8999] + arr[0] + y + z + arr[4500]\n}\n"
